@@ -4,7 +4,7 @@ from props import usmcommon as U
 import drv_atk
 
 LEVEL = "model_checking"
-OPS = ["get", "getnext", "multiget", "set", "bulkget", "walk"]
+OPS = ["get", "getnext", "multiget", "set", "bulkget", "walk", "walk_warn", "bulkwalk"]
 
 
 def sig(tr, v):
@@ -33,15 +33,15 @@ def run(ctx):
                 fams.append((level, h, op, list(drv_atk.STRUCT) + [("bitflip", b) for b in bits], False))
             fams.append((level, h, "get", ["digest_into_zero_run", "zero_digest", "swap_pdu_keep_mac"], True))
             # the forgery arrives while another request of the same client is in flight, right after an authentic response was processed
-            fams.append((level, h, "overlap", [a for a in drv_atk.STRUCT if a not in ("digest_into_zero_run", "truncate_tail")], False))
+            fams.append((level, h, "overlap", [a for a in drv_atk.STRUCT if a not in ("digest_into_zero_run", "truncate_tail") and not a.startswith("disco_")], False))
     T = drv_atk.run_families(fams)
     ctx.evaluations += len(T)
     verdicts = ctx.validate("Trace_UsmAtk", T, chunk=4000, constants=dict(U.PINS, Attack=True), spec="TSpec")
     ctx.judge(T, verdicts, signature=sig, nontrivial=lambda tr, v: json.dumps(tr["scenario"]) if tr["events"][0]["ret"]["kind"] == "exc" else None, drift_index=2)
-    ctx.rule = ("for MD5 / SHA-1 x authNoPriv / authPriv x {get, getnext, multiget, set, bulkget, walk}: %s of the authentic response plus %d structural "
+    ctx.rule = ("for MD5 / SHA-1 x authNoPriv / authPriv x {get, getnext, multiget, set, bulkget, walk (strict and lenient), bulkwalk}: %s of the authentic response plus %d structural "
                 "forgeries (flags 0/1/2/4/6 against the credentials, empty / short / zero / garbage digest, other user, other engine id, wrong localisation, "
                 "plaintext under privacy credentials, ciphertext without the flag, Reports with arbitrary or usmStats bindings, unauthenticated Responses / Reports whose PDU carries "
-                "error-status 2 or 5 (noSuchName is what ends a walk), the digest copied over a zero run, "
+                "error-status 2 or 5 (noSuchName is what ends a walk), a fresh client's discovery reply carrying an error-status, the digest copied over a zero run, "
                 "truncation, stale MAC with another PDU, another request id); the structural forgeries also as the answer to the second of two requests in flight on one "
                 "client, delivered right after the authentic answer to the first was processed; after each attack an unattacked request must still succeed; "
                 "non-trivial = distinct attack that the client refused") % ("every single-bit flip at every position" if not q else "156 sampled single-bit flips (all of the first two octets)", len(drv_atk.STRUCT))
